@@ -394,14 +394,14 @@ def post_cross(a, b, result, OLD):
     return True
 
 
-def _eig_common(name, a, values, vectors, hermitian):
+def _eig_common(name, a, values, vectors, hermitian, variant=""):
     """Residual definition: a v = lambda v for every returned pair, complete set."""
     run = _state["run"]
     n = a.shape[0]
     a0 = np.asarray(a, dtype=float)
     scale = max(maxabs(a0), 1e-300)
     res = np.einsum("ij...,ja...->ia...", a0, vectors) - vectors * values[None]
-    unit = name
+    unit = name + variant
     run.compare("math." + name, "routine=%s clause=eigen-residual" % unit, maxabs(res) / scale, 1e-9,
                 "%s: a v != lambda v" % unit, unit="math:" + unit, config=unit + "[%dd]" % n)
     nrm = np.sqrt(np.sum(np.abs(vectors) ** 2, axis=0))
@@ -417,14 +417,22 @@ def _eig_common(name, a, values, vectors, hermitian):
                     "%s: eigenvectors not orthonormal" % unit, unit="math:" + unit)
 
 
-def post_eigh(a, result, OLD):
-    if not _numeric(a) or a.ndim < 2 or a.shape[0] != a.shape[1] or not _sampled("eigh", _sig(a)):
+def post_eigh(a, UPLO, result, OLD):
+    if not _numeric(a) or a.ndim < 2 or a.shape[0] != a.shape[1] or not _sampled("eigh", _sig(a, UPLO=UPLO)):
         return True
     a0 = OLD.a0
     if maxabs(a0 - np.swapaxes(a0, 0, 1)) > 1e-12 * max(1.0, maxabs(a0)):
-        _state["run"].skip("math.eigh", "non-symmetric input")
-        return True
-    _eig_common("eigh", a0, result[0], result[1], True)
+        # triangular storage: the matrix meant is the symmetric completion of the triangle named by UPLO
+        n = a0.shape[0]
+        tri = np.tril(np.ones((n, n)), -1) if str(UPLO).upper() == "L" else np.triu(np.ones((n, n)), 1)
+        tri = tri.reshape(n, n, *([1] * (a0.ndim - 2)))
+        half = a0 * tri
+        diag = a0 * np.eye(n).reshape(n, n, *([1] * (a0.ndim - 2)))
+        a0 = half + np.swapaxes(half, 0, 1) + diag
+        _eig_common("eigh", a0, result[0], result[1], True, variant="[UPLO=%s,triangular-storage]" % str(UPLO).upper())
+    else:
+        _eig_common("eigh", a0, result[0], result[1], True)
+    a0 = OLD.a0
     _unchanged("eigh", "eigh", [("a", a, a0)])
     return True
 
